@@ -86,6 +86,18 @@ def floatEq (a b : Nat) : Bool :=
   let isZero (x : Nat) := x % 2^63 = 0
   if isNaN a ∨ isNaN b then false else if isZero a ∧ isZero b then true else a = b
 
+/-- the integer a finite IEEE-754 double denotes, if it denotes one (`1.0 == 1` in Python). -/
+def f64ToInt? (bits : Nat) : Option Int :=
+  let sign : Int := if bits / 2^63 % 2 = 1 then -1 else 1
+  let e := bits / 2^52 % 2^11
+  let m := bits % 2^52
+  if e = 2^11 - 1 then none
+  else if e = 0 then (if m = 0 then some 0 else none)
+  else
+    let mant := 2^52 + m
+    if e ≥ 1075 then some (sign * (mant * 2^(e - 1075) : Nat))
+    else if mant % 2^(1075 - e) = 0 then some (sign * (mant / 2^(1075 - e) : Nat)) else none
+
 def lookupKV (k : List Nat) : List (List Nat) → List Val → Option Val
   | k' :: ks, v :: vs => if k = k' then some v else lookupKV k ks vs
   | _, _ => none
@@ -98,6 +110,10 @@ def pyEq : Val → Val → Bool
   | .int a, .bool b => a = (if b then 1 else 0)
   | .int a, .int b => a = b
   | .float a, .float b => floatEq a b
+  | .int a, .float b => f64ToInt? b = some a
+  | .float a, .int b => f64ToInt? a = some b
+  | .bool a, .float b => f64ToInt? b = some (if a then 1 else 0)
+  | .float a, .bool b => f64ToInt? a = some (if b then 1 else 0)
   | .str a, .str b => a = b
   | .enum a, .enum b => a = b
   | .path a, .path b => a = b
